@@ -604,6 +604,22 @@ MUTANTS = [
     M("G8-3-high-swapped-for-suited", ["C06"], (RP, "            RankPair::Suited(high, _) | RankPair::Ofsuit(high, _) => high,", "            RankPair::Suited(_, high) | RankPair::Ofsuit(high, _) => high,"), base="G8-3"),
     M("G8-3-kicker-is-high-for-pocket-ok-but-ofsuit-swapped", ["C06"], (RP, "            RankPair::Suited(_, kicker) | RankPair::Ofsuit(_, kicker) => kicker,", "            RankPair::Suited(_, kicker) | RankPair::Ofsuit(kicker, _) => kicker,"), base="G8-3"),
     M("G8-3-suffix-swapped", ["C06"], (RP, "            RankPair::Suited(_, _) => f.write_str(\"s\"),\n            RankPair::Ofsuit(_, _) => f.write_str(\"o\"),", "            RankPair::Suited(_, _) => f.write_str(\"o\"),\n            RankPair::Ofsuit(_, _) => f.write_str(\"s\"),"), base="G8-3"),
+    M("benign-N7-3-decoder-find-over-all", ["C13", "C08", "C09"], base="N7-3", benign=True),
+    M("N7-3-suit-find-eq-zero", ["C13"], (CD, ".find(|suit| value & suit_mask(suit) != 0)", ".find(|suit| value & suit_mask(suit) == 0)"), base="N7-3"),
+    M("N7-3-rank-find-uses-suit-mask", ["C13"], (CD, ".find(|rank| value & rank_mask(rank) != 0)", ".find(|rank| value & rank_mask(rank) & SPADE_MASK != 0)"), base="N7-3"),
+    M("N7-3-king-mask-dup", ["C13"], (CD, "        Rank::King => KING_MASK,\n        Rank::Queen => QUEEN_MASK,", "        Rank::King => QUEEN_MASK,\n        Rank::Queen => QUEEN_MASK,"), base="N7-3"),
+    M("benign-N6-3-combos-by-selected-predicate", ["C05", "C12", "C10", "C06", "C17"], base="N6-3", benign=True),
+    M("N6-3-pocket-le", ["C05", "C12"], (RP, "|left, right| left < right)", "|left, right| left <= right)"), base="N6-3"),
+    M("N6-3-pocket-gt", ["C12"], (RP, "|left, right| left < right)", "|left, right| left > right)"), base="N6-3", benign=True),
+    M("N6-3-suited-ne", ["C05", "C12"], (RP, "RankPair::Suited(high, kicker) => (high, kicker, |left, right| left == right)", "RankPair::Suited(high, kicker) => (high, kicker, |left, right| left != right)"), base="N6-3"),
+    M("N6-3-kicker-takes-left", ["C05", "C12"], (RP, "                        Card::new(kicker, right),", "                        Card::new(kicker, left),"), base="N6-3"),
+    M("N6-3-break-after-first", ["C05", "C12"], (RP, "                        Card::new(kicker, right),\n                    ));", "                        Card::new(kicker, right),\n                    ));\n                    break;"), base="N6-3"),
+    M("benign-N8-4-merged-expansion-arms", ["C05", "C09", "C10", "C06", "C17"], base="N8-4", benign=True),
+    M("N8-4-bottom-start-not-next", ["C05"], (TK, "                    (rank_pair, high.next().unwrap(), kicker)", "                    (rank_pair, high, kicker)"), base="N8-4"),
+    M("N8-4-double-reversed", ["C05", "C09"], (TK, "                    (rank_pair, kicker, end)", "                    (rank_pair, end, kicker)"), base="N8-4"),
+    M("N8-4-closure-suited-builds-ofsuit", ["C05"], (TK, "RankPair::Suited(high, _) => RankPair::Suited(high, r),", "RankPair::Suited(high, _) => RankPair::Ofsuit(high, r),"), base="N8-4"),
+    M("N8-4-closure-pocket-keeps-rank", ["C05"], (TK, "RankPair::Pocket(_) => RankPair::Pocket(r),", "RankPair::Pocket(p) => RankPair::Pocket(p),"), base="N8-4"),
+    M("N8-4-pocket-bottom-from-king", ["C05"], (TK, "RankPair::Pocket(rank) => (rank_pair, Rank::Ace, rank),", "RankPair::Pocket(rank) => (rank_pair, Rank::King, rank),"), base="N8-4"),
     M("benign-F3-3-computed-flush-weight", ["C01", "C07", "C08"], base="F3-3", benign=True),
     M("F3-3-unreversed", ["C01", "C07"], (MH, "1 << (12 - u8::from(card.rank()))", "1 << u8::from(card.rank())"), base="F3-3"),
     M("F3-3-off-by-one", ["C01", "C07"], (MH, "1 << (12 - u8::from(card.rank()))", "1 << (13 - u8::from(card.rank()))"), base="F3-3"),
